@@ -41,21 +41,22 @@ def make_robot(trial, layout):
         spec = layout["comps"][cn]
 
         def mk(cn=cn, spec=spec):
-            def rec(kind, self=None):
-                TRACE.append((kind, cn))
-                if (kind, cn) in RAISE: raise Boom(f"{kind} {cn}")
-            ns = {"execute": lambda self: (TRACE.append(("seen", cn, {k: getattr(self, k) for k in spec["resets"]})), rec("execute"))[1]}
-            if spec["on_enable"]: ns["on_enable"] = lambda self: rec("on_enable")
-            if spec["on_disable"]: ns["on_disable"] = lambda self: rec("on_disable")
+            nm = lambda self: self.logger.name       # the attribute name the robot gave this instance (MagicRobot sets component.logger)
+            def rec(kind, self):
+                TRACE.append((kind, nm(self)))
+                if (kind, nm(self)) in RAISE: raise Boom(f"{kind} {nm(self)}")
+            ns = {"execute": lambda self: (TRACE.append(("seen", nm(self), {k: getattr(self, k) for k in spec["resets"]})), rec("execute", self))[1]}
+            if spec["on_enable"]: ns["on_enable"] = lambda self: rec("on_enable", self)
+            if spec["on_disable"]: ns["on_disable"] = lambda self: rec("on_disable", self)
             base_ns = {k: will_reset_to(v) for k, v in spec["resets"].items() if k.startswith("inh")}
             for k, v in spec["resets"].items():
                 if not k.startswith("inh"): ns[k] = will_reset_to(v)
             ns["other"] = 7
             def mk_getter(fb):
                 def getter(self):
-                    TRACE.append(("fb", cn, fb))
-                    if ("fb", cn + "." + fb) in RAISE: raise Boom(fb)
-                    COUNTER[0] += 1; VALUES[(cn, fb)] = COUNTER[0]; return COUNTER[0]
+                    TRACE.append(("fb", nm(self), fb))
+                    if ("fb", nm(self) + "." + fb) in RAISE: raise Boom(fb)
+                    COUNTER[0] += 1; VALUES[(nm(self), fb)] = COUNTER[0]; return COUNTER[0]
                 getter.__name__ = fb; getter.__annotations__ = {"return": int}
                 return feedback(getter)
             for fb in spec["feedbacks"]:
@@ -63,6 +64,9 @@ def make_robot(trial, layout):
             Base = type(f"Base_{trial}_{cn}", (), base_ns)
             return type(f"Comp_{trial}_{cn}", (Base,), ns)
         comp_classes[cn] = mk()
+    if layout.get("same_class") and ncomp >= 2:       # two components that are instances of one class
+        comp_classes["c1"] = comp_classes["c0"]
+        layout["comps"]["c1"] = layout["comps"]["c0"]
     RAISE = set(); COUNTER = [1000]; VALUES = {}
     rns = {"__annotations__": dict(comp_classes), "use_teleop_in_autonomous": layout["use_teleop"], "control_loop_wait_time": 0.02}
 
@@ -102,6 +106,7 @@ for trial in range(N):
         layout["comps"][f"c{i}"] = {"on_enable": rnd.random() < 0.7, "on_disable": rnd.random() < 0.7,
                                     "resets": {k: rnd.choice([0, False, "d"]) for k in rnd.sample(["inh_a", "own_b", "own_c"], rnd.randrange(0, 3))},
                                     "feedbacks": rnd.sample(["get_x", "speed"], rnd.randrange(0, 3))}
+    layout["same_class"] = rnd.random() < 0.25
     Robot, RAISE, VALUES = make_robot(trial, layout)
     robot = Robot(); robot.createObjects(); robot._automodes = Mock(); robot._automodes.modes = {}
     robot.watchdog = Mock(); robot._MagicRobot__periodics = [(robot.robotPeriodic, "robotPeriodic()")]
